@@ -43,7 +43,8 @@ def build_cases(chk):
     cases += [scen_proc.gen_case(rng, chk.tier) for _ in range(n)]
     cases += [scen_proc.heavy_log_case(rng, sig) for sig in ([9, 15] if chk.tier == 'quick' else [9, 15, 10, 1] * 5)]
     cases += [scen_proc.random_kill_case(rng, chk.tier) for _ in range(40 if chk.tier == 'quick' else 1200)]
-    cases += [scen_proc.flush_kill_case(rng) for _ in range(6 if chk.tier == 'quick' else 60)]
+    nf = 12 if chk.tier == 'quick' else 72
+    cases += [scen_proc.flush_kill_case(rng, (k % 12 + rng.random()) / 12) for k in range(nf)]     # 12 strata of the 1.5 s
     cases += [scen_proc.midmsg_kill_case(rng) for _ in range(12 if chk.tier == 'quick' else 120)]
     return cases
 
